@@ -237,7 +237,11 @@ static void GC_Rem_Ptr(struct GC* gc, var ptr) {
   if (gc->nslots is 0) { return; }
   
   for (size_t i = 0; i < gc->freenum; i++) {
-    if (gc->freelist[i] is ptr) { gc->freelist[i] = NULL; }
+    if (gc->freelist[i] is ptr) {
+      gc->freelist[i] = NULL;
+      dealloc(destruct(ptr));
+      return;
+    }
   }
   
   uint64_t i = GC_Hash(ptr) % gc->nslots;
@@ -465,7 +469,9 @@ void GC_Sweep(struct GC* gc) {
   
   for (size_t i = 0; i < gc->freenum; i++) {
     if (gc->freelist[i]) {
-      dealloc(destruct(gc->freelist[i]));
+      var item = gc->freelist[i];
+      gc->freelist[i] = NULL;
+      dealloc(destruct(item));
     }
   }
   
